@@ -1,12 +1,12 @@
 SPECIFICATION Spec
 CONSTANTS
   MS <- MS_q
-  DS <- DS_q
-  TOLS <- TOLS_std
-  POOL <- POOL_std
+  DS <- DS_s
+  TOLS <- TOLS_s
+  POOL <- POOL_s
   MAXPK = 3
-  SCALES <- SCALES_unit
-  LABS <- LABS_q
+  SCALES <- SCALES_q
+  LABS <- LABS_s
 INVARIANT HSym
 INVARIANT CountOK
 INVARIANT CauchyBinet
